@@ -33,9 +33,23 @@ CLAIMED = {
     ),
 }
 
+CLAIMED["C13"] = (
+    "loops",
+    "exploration",
+    "Each of the six bundled event loops (select, asyncio, tornado, twisted, zmq, trio) runs real on a virtual clock "
+    "and fake descriptors under seeded user programs: alarms on a time grid, watched pipes with scheduled arrivals "
+    "(coinciding with alarm due times, order decided by a tie-break tape), idle callbacks, re-entrant API calls from "
+    "callbacks, arbitrary return values and one injected exception. A trace contract checker evaluates the alarm / "
+    "watch / idle / exception clauses on every run and at every point where the loop really waits. Sampling, not proof.",
+    "Trusts the seam adapters (SimAsyncioLoop blocking step, SimSelector, SimPoller, trio MockClock + fd wait); "
+    "equal due times, removal of fired alarms, and API results during loop shutdown are left unconstrained; GLib loop not installed.",
+    "deterministic simulation: seeded timer/readiness schedules with fault injection on a virtual clock, trace contract checker",
+    "DESIGN.md section 5, C13",
+)
+
 PENDING = {
     p: "claimed in DESIGN.md; its simulation engine is not built yet in this tree, so no check is registered for it at this commit"
-    for p in ("C04", "C05", "C06", "C07", "C08", "C10", "C12", "C13", "C15", "C20")
+    for p in ("C04", "C05", "C06", "C07", "C08", "C10", "C12", "C15", "C20")
 }
 
 
